@@ -216,6 +216,10 @@ def judge (ops impl : List String) : Bool × String :=
         match judgeOp g op o with
         | .bad why => (false, why)
         | .good =>
+          -- a failure of the byte source carries no information about the cache (a delimited read may
+          -- legitimately succeed from the string cache where a fresh cache would have to read a buffer the
+          -- source refuses): only outcomes not blamed on the source are compared
+          if o = "err:source" then go os rest seen else
           match seen.find? (fun e => e.1 == op) with
           | some (_, o') =>
             if o' = o then go os rest seen
